@@ -1,0 +1,48 @@
+// Verification hooks (cargo feature `verif`, off by default).
+//
+// A thread-local logical step counter that the tokenizer and tree builder
+// loops tick, so that an external monitor can decide "no bounded progress"
+// on logical steps instead of wall-clock time.
+
+use std::cell::Cell;
+
+pub const N_SITES: usize = 8;
+
+thread_local! {
+    static STEPS: Cell<u64> = const { Cell::new(0) };
+    static BUDGET: Cell<u64> = const { Cell::new(u64::MAX) };
+    static SITES: [Cell<u64>; N_SITES] = const { [const { Cell::new(0) }; N_SITES] };
+}
+
+/// Count one iteration of the loop identified by `site`; panic when the
+/// budget installed with [`reset`] is exceeded.
+#[inline]
+pub fn tick(site: usize) {
+    SITES.with(|s| s[site % N_SITES].set(s[site % N_SITES].get() + 1));
+    let n = STEPS.with(|s| {
+        let n = s.get() + 1;
+        s.set(n);
+        n
+    });
+    if n > BUDGET.with(|b| b.get()) {
+        // Raise the budget first so that unwinding code cannot re-trigger.
+        BUDGET.with(|b| b.set(u64::MAX));
+        panic!("verif: step budget exceeded at site {site} after {n} steps");
+    }
+}
+
+/// Reset the step counter and install a new budget.
+pub fn reset(budget: u64) {
+    STEPS.with(|s| s.set(0));
+    BUDGET.with(|b| b.set(budget));
+}
+
+/// Steps counted since the last [`reset`].
+pub fn steps() -> u64 {
+    STEPS.with(|s| s.get())
+}
+
+/// Per-site tick totals for this thread (never reset).
+pub fn site_counts() -> [u64; N_SITES] {
+    SITES.with(|s| std::array::from_fn(|i| s[i].get()))
+}
